@@ -150,6 +150,9 @@ impl Used {
             section.add_gc_roots(&mut stack);
         }
 
+        // Functions named by a `ref.func` instruction in a live function body.
+        let mut ref_funcs = Vec::new();
+
         // Iteratively visit all items until our stack is empty
         while !stack.funcs.is_empty()
             || !stack.tables.is_empty()
@@ -157,6 +160,7 @@ impl Used {
             || !stack.globals.is_empty()
             || !stack.datas.is_empty()
             || !stack.elements.is_empty()
+            || stack.keep_declarations(module, &mut ref_funcs)
         {
             while let Some(f) = stack.funcs.pop() {
                 let func = module.funcs.get(f);
@@ -164,7 +168,10 @@ impl Used {
 
                 match &func.kind {
                     FunctionKind::Local(func) => {
-                        let mut visitor = UsedVisitor { stack: &mut stack };
+                        let mut visitor = UsedVisitor {
+                            stack: &mut stack,
+                            ref_funcs: &mut ref_funcs,
+                        };
                         dfs_in_order(&mut visitor, func, func.entry_block());
                     }
                     FunctionKind::Import(_) => {}
@@ -254,13 +261,55 @@ impl Used {
     }
 }
 
+impl Roots {
+    /// A `ref.func $f` in a function body is only valid if `$f` is also
+    /// mentioned outside of function bodies: by an export, an element segment
+    /// or a global initializer. For every such function whose declarations
+    /// would all be removed, keep the first element segment (or else the first
+    /// global) that mentions it. Returns whether anything new was pushed.
+    fn keep_declarations(&mut self, module: &Module, ref_funcs: &mut Vec<FunctionId>) -> bool {
+        let in_elem = |e: &Element, f: FunctionId| match &e.items {
+            ElementItems::Functions(funcs) => funcs.contains(&f),
+            ElementItems::Expressions(_, items) => items
+                .iter()
+                .any(|i| matches!(i, ConstExpr::RefFunc(g) if *g == f)),
+        };
+        let in_global = |g: &Global, f: FunctionId| matches!(&g.kind, GlobalKind::Local(ConstExpr::RefFunc(g)) if *g == f);
+        let mut pushed = false;
+        for f in ref_funcs.drain(..) {
+            let declared = module
+                .exports
+                .iter()
+                .any(|e| matches!(e.item, ExportItem::Function(g) if g == f))
+                || (self.used.elements.iter()).any(|e| in_elem(module.elements.get(*e), f))
+                || (self.used.globals.iter()).any(|g| in_global(module.globals.get(*g), f));
+            if declared {
+                continue;
+            }
+            if let Some(e) = module.elements.iter().find(|e| in_elem(e, f)) {
+                self.push_element(e.id());
+                pushed = true;
+            } else if let Some(g) = module.globals.iter().find(|g| in_global(g, f)) {
+                self.push_global(g.id());
+                pushed = true;
+            }
+        }
+        pushed
+    }
+}
+
 struct UsedVisitor<'a> {
     stack: &'a mut Roots,
+    ref_funcs: &'a mut Vec<FunctionId>,
 }
 
 impl<'expr> Visitor<'expr> for UsedVisitor<'_> {
     fn visit_function_id(&mut self, &func: &FunctionId) {
         self.stack.push_func(func);
+    }
+
+    fn visit_ref_func(&mut self, instr: &RefFunc) {
+        self.ref_funcs.push(instr.func);
     }
 
     fn visit_memory_id(&mut self, &m: &MemoryId) {
